@@ -19,7 +19,8 @@ from checks import c01  # noqa: E402
 
 tier = sys.argv[1] if len(sys.argv) > 1 else "quick"
 named, ks, npres = c01.case_list(tier, 0)
-subsets = {"all_upto": 7, "sampled": 0} if tier == "quick" else {"all_upto": 8, "sampled": 0}
+det = {n for n, _d in le.corpus_defs() + le.f_defs(5 if tier == "quick" else 6)}
+subsets = {"all_upto": 7, "sampled": 0, "deterministic_names": det}
 lr = le.LearnRun(named, ks, [le.presentation(0, 0)], seed=0, max_jobs=400 if tier == "quick" else 500, subsets=subsets).run()
 emitted, traces, owner = [], [], []
 for ri, rec in enumerate(lr.records):
